@@ -17,7 +17,10 @@
    treats a cancelled root as absent at the next SyncKeys / ResetRoutine / RestartRoutine call ([norm_ctx]) - and only
    there: SetKey, SetContext and the retry callback use it as it is.  The exited channel of instance i is identified
    with i, [iexit] = closed.
-   The constructor callback returns data = key * 1000 + (number of constructions of that key).
+   The constructor callback returns data = key * 1000 + (number of constructions of that key) and, as the history
+   prescribes ([nilmode], event [ESetNil]), a routine or NO routine (a nil Routine): a record without a routine ([rnil])
+   occupies its key and is never started (start returns at once); ResetRoutine hands it the exit channel of the instance
+   it has just cancelled, so that a later start still waits for it (D22 repair, switch [fx_nilchain]).
    No proofs in this file. *)
 From Util Require Import Common.Base Common.ListLemmas.
 
@@ -30,7 +33,7 @@ Record inst := { irec : nat; ikey : nat; ilin : nat; iwait : option nat; ipcv : 
                  idata : N; iroot : nat }.
 
 Record rec := { rkey : nat; rlin : nat; rdata : N; rctx : option nat; rcancel : option nat; rexit : option nat;
-                rerr : outcome; rsucc : bool; rexited : bool; rremove : option nat; rretry : option nat; rbo : nat }.
+                rerr : outcome; rsucc : bool; rexited : bool; rremove : option nat; rretry : option nat; rbo : nat; rnil : bool }.
 
 Inductive tstate := TArmed | TFired | TStopped | TRan.
 Record timer := { tkind : bool; trec : nat; tkey : nat; tdead : N; tst : tstate }.
@@ -40,8 +43,8 @@ Record ref := { fkey : nat; frel : bool; fin : bool }.
 (* a Release call that passed the flag swap *)
 Record relc := { lref : nat; lparked : bool }.
 
-Record fixes := { fx_wait : bool; fx_setkey : bool; fx_sync : bool; fx_reset : bool; fx_stale : bool }.
-Definition repaired : fixes := {| fx_wait := true; fx_setkey := true; fx_sync := true; fx_reset := true; fx_stale := true |}.
+Record fixes := { fx_wait : bool; fx_setkey : bool; fx_sync : bool; fx_reset : bool; fx_stale : bool; fx_nilchain : bool }.
+Definition repaired : fixes := {| fx_wait := true; fx_setkey := true; fx_sync := true; fx_reset := true; fx_stale := true; fx_nilchain := true |}.
 
 Record st := {
   kctx : nat;                      (* container context, 0 = nil *)
@@ -58,11 +61,12 @@ Record st := {
   refs : list ref;
   rels : list relc;
   croots : list nat;                (* root contexts their owner has cancelled *)
+  nilmode : nat;                    (* what the constructor returns next: 0 a routine, 1 none, otherwise none for odd keys *)
 }.
 
 Definition init (dl : N) (sc : option (list N)) : st :=
   {| kctx := 0; kmap := []; delay := dl; script := sc; nlin := 0; ctors := []; recs := []; insts := []; timers := [];
-     clock := 0%N; cblog := []; refs := []; rels := []; croots := [] |}.
+     clock := 0%N; cblog := []; refs := []; rels := []; croots := []; nilmode := 0 |}.
 
 (* ---------- association lists ---------- *)
 Fixpoint lookup {A} (m : list (nat * A)) (k : nat) : option A :=
@@ -87,44 +91,47 @@ Definition mem (k : nat) (l : list nat) : bool := existsb (Nat.eqb k) l.
 (* ---------- setters ---------- *)
 Definition set_kctx (s : st) (x : nat) : st :=
   {| kctx := x; kmap := kmap s; delay := delay s; script := script s; nlin := nlin s; ctors := ctors s; recs := recs s;
-     insts := insts s; timers := timers s; clock := clock s; cblog := cblog s; refs := refs s; rels := rels s; croots := croots s |}.
+     insts := insts s; timers := timers s; clock := clock s; cblog := cblog s; refs := refs s; rels := rels s; croots := croots s; nilmode := nilmode s |}.
 Definition set_kmap (s : st) (x : list (nat * nat)) : st :=
   {| kctx := kctx s; kmap := x; delay := delay s; script := script s; nlin := nlin s; ctors := ctors s; recs := recs s;
-     insts := insts s; timers := timers s; clock := clock s; cblog := cblog s; refs := refs s; rels := rels s; croots := croots s |}.
+     insts := insts s; timers := timers s; clock := clock s; cblog := cblog s; refs := refs s; rels := rels s; croots := croots s; nilmode := nilmode s |}.
 Definition set_nlin (s : st) (x : nat) : st :=
   {| kctx := kctx s; kmap := kmap s; delay := delay s; script := script s; nlin := x; ctors := ctors s; recs := recs s;
-     insts := insts s; timers := timers s; clock := clock s; cblog := cblog s; refs := refs s; rels := rels s; croots := croots s |}.
+     insts := insts s; timers := timers s; clock := clock s; cblog := cblog s; refs := refs s; rels := rels s; croots := croots s; nilmode := nilmode s |}.
 Definition set_ctors (s : st) (x : list (nat * nat)) : st :=
   {| kctx := kctx s; kmap := kmap s; delay := delay s; script := script s; nlin := nlin s; ctors := x; recs := recs s;
-     insts := insts s; timers := timers s; clock := clock s; cblog := cblog s; refs := refs s; rels := rels s; croots := croots s |}.
+     insts := insts s; timers := timers s; clock := clock s; cblog := cblog s; refs := refs s; rels := rels s; croots := croots s; nilmode := nilmode s |}.
 Definition set_recs (s : st) (x : list rec) : st :=
   {| kctx := kctx s; kmap := kmap s; delay := delay s; script := script s; nlin := nlin s; ctors := ctors s; recs := x;
-     insts := insts s; timers := timers s; clock := clock s; cblog := cblog s; refs := refs s; rels := rels s; croots := croots s |}.
+     insts := insts s; timers := timers s; clock := clock s; cblog := cblog s; refs := refs s; rels := rels s; croots := croots s; nilmode := nilmode s |}.
 Definition set_insts (s : st) (x : list inst) : st :=
   {| kctx := kctx s; kmap := kmap s; delay := delay s; script := script s; nlin := nlin s; ctors := ctors s; recs := recs s;
-     insts := x; timers := timers s; clock := clock s; cblog := cblog s; refs := refs s; rels := rels s; croots := croots s |}.
+     insts := x; timers := timers s; clock := clock s; cblog := cblog s; refs := refs s; rels := rels s; croots := croots s; nilmode := nilmode s |}.
 Definition set_timers (s : st) (x : list timer) : st :=
   {| kctx := kctx s; kmap := kmap s; delay := delay s; script := script s; nlin := nlin s; ctors := ctors s; recs := recs s;
-     insts := insts s; timers := x; clock := clock s; cblog := cblog s; refs := refs s; rels := rels s; croots := croots s |}.
+     insts := insts s; timers := x; clock := clock s; cblog := cblog s; refs := refs s; rels := rels s; croots := croots s; nilmode := nilmode s |}.
 Definition set_clock (s : st) (x : N) : st :=
   {| kctx := kctx s; kmap := kmap s; delay := delay s; script := script s; nlin := nlin s; ctors := ctors s; recs := recs s;
-     insts := insts s; timers := timers s; clock := x; cblog := cblog s; refs := refs s; rels := rels s; croots := croots s |}.
+     insts := insts s; timers := timers s; clock := x; cblog := cblog s; refs := refs s; rels := rels s; croots := croots s; nilmode := nilmode s |}.
 Definition set_cblog (s : st) (x : list (nat * N * outcome)) : st :=
   {| kctx := kctx s; kmap := kmap s; delay := delay s; script := script s; nlin := nlin s; ctors := ctors s; recs := recs s;
-     insts := insts s; timers := timers s; clock := clock s; cblog := x; refs := refs s; rels := rels s; croots := croots s |}.
+     insts := insts s; timers := timers s; clock := clock s; cblog := x; refs := refs s; rels := rels s; croots := croots s; nilmode := nilmode s |}.
 Definition set_refs (s : st) (x : list ref) : st :=
   {| kctx := kctx s; kmap := kmap s; delay := delay s; script := script s; nlin := nlin s; ctors := ctors s; recs := recs s;
-     insts := insts s; timers := timers s; clock := clock s; cblog := cblog s; refs := x; rels := rels s; croots := croots s |}.
+     insts := insts s; timers := timers s; clock := clock s; cblog := cblog s; refs := x; rels := rels s; croots := croots s; nilmode := nilmode s |}.
 Definition set_rels (s : st) (x : list relc) : st :=
   {| kctx := kctx s; kmap := kmap s; delay := delay s; script := script s; nlin := nlin s; ctors := ctors s; recs := recs s;
-     insts := insts s; timers := timers s; clock := clock s; cblog := cblog s; refs := refs s; rels := x; croots := croots s |}.
+     insts := insts s; timers := timers s; clock := clock s; cblog := cblog s; refs := refs s; rels := x; croots := croots s; nilmode := nilmode s |}.
 
 Definition set_croots (s : st) (x : list nat) : st :=
   {| kctx := kctx s; kmap := kmap s; delay := delay s; script := script s; nlin := nlin s; ctors := ctors s; recs := recs s;
-     insts := insts s; timers := timers s; clock := clock s; cblog := cblog s; refs := refs s; rels := rels s; croots := x |}.
+     insts := insts s; timers := timers s; clock := clock s; cblog := cblog s; refs := refs s; rels := rels s; croots := x; nilmode := nilmode s |}.
+Definition set_nilmode (s : st) (x : nat) : st :=
+  {| kctx := kctx s; kmap := kmap s; delay := delay s; script := script s; nlin := nlin s; ctors := ctors s; recs := recs s;
+     insts := insts s; timers := timers s; clock := clock s; cblog := cblog s; refs := refs s; rels := rels s; croots := croots s; nilmode := x |}.
 
 Definition rec0 : rec := {| rkey := 0; rlin := 0; rdata := 0%N; rctx := None; rcancel := None; rexit := None; rerr := ONil;
-                            rsucc := false; rexited := false; rremove := None; rretry := None; rbo := 0 |}.
+                            rsucc := false; rexited := false; rremove := None; rretry := None; rbo := 0; rnil := false |}.
 Definition inst0 : inst := {| irec := 0; ikey := 0; ilin := 0; iwait := None; ipcv := IDone; icanc := true; iexit := true;
                               idata := 0%N; iroot := 0 |}.
 Definition timer0 : timer := {| tkind := false; trec := 0; tkey := 0; tdead := 0%N; tst := TRan |}.
@@ -137,27 +144,27 @@ Definition gett (s : st) (t : nat) : timer := nth t (timers s) timer0.
 (* record field updates (the key, lineage and data of a record never change) *)
 Definition with_cancel (x : rec) (v : option nat) : rec :=
   {| rkey := rkey x; rlin := rlin x; rdata := rdata x; rctx := rctx x; rcancel := v; rexit := rexit x; rerr := rerr x;
-     rsucc := rsucc x; rexited := rexited x; rremove := rremove x; rretry := rretry x; rbo := rbo x |}.
+     rsucc := rsucc x; rexited := rexited x; rremove := rremove x; rretry := rretry x; rbo := rbo x; rnil := rnil x |}.
 Definition with_noctx (x : rec) : rec :=
   {| rkey := rkey x; rlin := rlin x; rdata := rdata x; rctx := None; rcancel := None; rexit := rexit x; rerr := rerr x;
-     rsucc := rsucc x; rexited := rexited x; rremove := rremove x; rretry := rretry x; rbo := rbo x |}.
+     rsucc := rsucc x; rexited := rexited x; rremove := rremove x; rretry := rretry x; rbo := rbo x; rnil := rnil x |}.
 Definition with_rexit (x : rec) (v : option nat) : rec :=
   {| rkey := rkey x; rlin := rlin x; rdata := rdata x; rctx := rctx x; rcancel := rcancel x; rexit := v; rerr := rerr x;
-     rsucc := rsucc x; rexited := rexited x; rremove := rremove x; rretry := rretry x; rbo := rbo x |}.
+     rsucc := rsucc x; rexited := rexited x; rremove := rremove x; rretry := rretry x; rbo := rbo x; rnil := rnil x |}.
 Definition with_remove (x : rec) (v : option nat) : rec :=
   {| rkey := rkey x; rlin := rlin x; rdata := rdata x; rctx := rctx x; rcancel := rcancel x; rexit := rexit x; rerr := rerr x;
-     rsucc := rsucc x; rexited := rexited x; rremove := v; rretry := rretry x; rbo := rbo x |}.
+     rsucc := rsucc x; rexited := rexited x; rremove := v; rretry := rretry x; rbo := rbo x; rnil := rnil x |}.
 Definition with_retry (x : rec) (v : option nat) : rec :=
   {| rkey := rkey x; rlin := rlin x; rdata := rdata x; rctx := rctx x; rcancel := rcancel x; rexit := rexit x; rerr := rerr x;
-     rsucc := rsucc x; rexited := rexited x; rremove := rremove x; rretry := v; rbo := rbo x |}.
+     rsucc := rsucc x; rexited := rexited x; rremove := rremove x; rretry := v; rbo := rbo x; rnil := rnil x |}.
 (* start: fresh instance n *)
 Definition with_started (x : rec) (n : nat) : rec :=
   {| rkey := rkey x; rlin := rlin x; rdata := rdata x; rctx := Some n; rcancel := Some n; rexit := Some n; rerr := ONil;
-     rsucc := false; rexited := false; rremove := rremove x; rretry := None; rbo := rbo x |}.
+     rsucc := false; rexited := false; rremove := rremove x; rretry := None; rbo := rbo x; rnil := rnil x |}.
 (* the bookkeeping section records an exit *)
 Definition with_exit (x : rec) (o : outcome) (retry : option nat) (bo : nat) : rec :=
   {| rkey := rkey x; rlin := rlin x; rdata := rdata x; rctx := rctx x; rcancel := rcancel x; rexit := None; rerr := o;
-     rsucc := is_nil o; rexited := true; rremove := rremove x; rretry := retry; rbo := bo |}.
+     rsucc := is_nil o; rexited := true; rremove := rremove x; rretry := retry; rbo := bo; rnil := rnil x |}.
 
 Definition with_pc (x : inst) (p : ipc) : inst :=
   {| irec := irec x; ikey := ikey x; ilin := ilin x; iwait := iwait x; ipcv := p; icanc := icanc x; iexit := iexit x;
@@ -205,7 +212,7 @@ Definition is_some {A} (o : option A) : bool := match o with Some _ => true | No
 (* runningRoutine.start(ctx, waitCh, forceRestart) *)
 Definition start_rec (s : st) (r : nat) (ctx : nat) (waitCh : option nat) (force : bool) : st :=
   let x := getr s r in
-  if negb force && rsucc x then s
+  if negb force && rsucc x || rnil x then s
   else if negb force && is_some (rctx x) && negb (rexited x) && ctx_live s (rctx x) then s
   else
     let s1 := stop_timer s (rretry x) in
@@ -218,13 +225,16 @@ Definition start_rec (s : st) (r : nat) (ctx : nat) (waitCh : option nat) (force
 (* ctorCb(key) and newRunningRoutine: a fresh record for key k in lineage lin, registered in the map; w is the exit
    channel it remembers (nil except in ResetRoutine) *)
 Definition ctor_count (s : st) (k : nat) : nat := match lookup (ctors s) k with Some c => c | None => 0 end.
+(* does the constructor return no routine for key k now *)
+Definition ctor_nil (mode k : nat) : bool := match mode with 0 => false | 1 => true | _ => Nat.odd k end.
 Definition new_record (s : st) (k lin : nat) (w : option nat) : st * nat :=
   let c := S (ctor_count s k) in
   let d := (N.of_nat k * 1000 + N.of_nat c)%N in
   let r := length (recs s) in
   let s1 := set_ctors s (insert (ctors s) k c) in
   let s2 := set_recs s1 (recs s1 ++ [{| rkey := k; rlin := lin; rdata := d; rctx := None; rcancel := None; rexit := w;
-                                        rerr := ONil; rsucc := false; rexited := false; rremove := None; rretry := None; rbo := 0 |}]) in
+                                        rerr := ONil; rsucc := false; rexited := false; rremove := None; rretry := None; rbo := 0;
+                                        rnil := ctor_nil (nilmode s) k |}]) in
   (set_kmap s2 (insert (kmap s2) k r), r).
 
 (* ---------- removal ---------- *)
@@ -355,9 +365,10 @@ Definition reset_core (fx : fixes) (s : st) (k cond : nat) : st * (bool * bool) 
       let x := getr s r in
       let s1 := cancel_inst s (rcancel x) in
       let prev := rexit x in
-      (* the new record's exitedCh: start overwrites it; without a context it keeps the previous instance's channel
-         (D8b repair).  Storing prev before the start is not observable: start never reads the record's exitedCh. *)
-      let w0 := if has_ctx s1 || fx_reset fx then prev else None in
+      (* the new record's exitedCh: start overwrites it; a record that is not started - no context (D8b repair) or no
+         routine (D22 repair) - keeps the previous instance's channel.  Storing prev before the start is not observable:
+         start never reads the record's exitedCh. *)
+      let w0 := if (if has_ctx s1 then negb (ctor_nil (nilmode s1) k) || fx_nilchain fx else fx_reset fx) then prev else None in
       let '(s2, r2) := new_record s1 k (rlin x) w0 in
       let s3 := if has_ctx s2 then start_rec s2 r2 (kctx s2) prev false else s2 in
       (s3, (true, true))
@@ -575,7 +586,8 @@ Inductive ev :=
 | EBook (i : nat)
 | EAdvance (d : N)
 | ETimerCb (t : nat)
-| ECancelRoot (c : nat).
+| ECancelRoot (c : nat)
+| ESetNil (m : nat).
 
 Definition step (fx : fixes) (s : st) (e : ev) : st :=
   match e with
@@ -599,6 +611,7 @@ Definition step (fx : fixes) (s : st) (e : ev) : st :=
   | EAdvance d => advance s d
   | ETimerCb t => timer_cb fx s t
   | ECancelRoot c => cancel_root s c
+  | ESetNil m => set_nilmode s m
   end.
 
 Definition run (fx : fixes) (s0 : st) (es : list ev) : st := fold_left (step fx) es s0.
